@@ -372,6 +372,38 @@ def get_included_models(model):
     return models
 
 
+def get_models_loaded_with(model, cached_ids):
+    """
+    get the models of the repository of a model which were loaded
+    together with it.
+
+    Args:
+        model: the (main) model
+        cached_ids: ids of the models its repository held before the load
+
+    Returns:
+        the models that were not cached before: neither in the
+        repository of the model nor in the global repository of the
+        metamodel of another language (an imported file of another
+        registered language is taken from there)
+    """
+    own = model._tx_model_repository.all_models
+
+    def cached_elsewhere(m):
+        repo = getattr(getattr(m, "_tx_metamodel", None), "_tx_model_repository", None)
+        return (
+            repo is not None
+            and repo.all_models is not own
+            and any(x is m for x in repo.all_models)
+        )
+
+    return [
+        m
+        for m in get_included_models(model)
+        if id(m) not in cached_ids and not cached_elsewhere(m)
+    ]
+
+
 def is_file_included(filename, model):
     """
     Determines if a file is included by a model. Also checks
